@@ -1026,6 +1026,21 @@ func (c *Ctx) wholeRequest(p *ssa.Parameter, depth int) string {
 
 // ---- HS5: every element of the input list becomes a job ------------------------------------------------------------------------------
 
+// sameCellLoad: a and b are two loads of the same captured or local cell (`for i := range files { ... files[i] }` inside a
+// closure loads the cell once for the length and once per element).
+func sameCellLoad(a, b ssa.Value) bool {
+	ua, ok1 := a.(*ssa.UnOp)
+	ub, ok2 := b.(*ssa.UnOp)
+	if !ok1 || !ok2 || ua.Op != token.MUL || ub.Op != token.MUL || ua.X != ub.X {
+		return false
+	}
+	switch ua.X.(type) {
+	case *ssa.FreeVar, *ssa.Alloc:
+		return true
+	}
+	return false
+}
+
 func ruleHS5(c *Ctx) *rule {
 	r := &rule{ID: "HS5", Engine: "E2+E5", Floor: 1,
 		Statement: "the producer sends every element of the input list on the jobs channel: the send sits in a loop that ranges over the whole list parameter front to back and every way round sends the element at hand exactly once",
@@ -1109,7 +1124,7 @@ func ruleHS5(c *Ctx) *rule {
 				if iff, ok := lastInstr(b).(*ssa.If); ok {
 					if bo, ok := iff.Cond.(*ssa.BinOp); ok && bo.Op == token.LSS {
 						if cl, ok := bo.Y.(*ssa.Call); ok {
-							if bi, ok := cl.Call.Value.(*ssa.Builtin); ok && bi.Name() == "len" && cl.Call.Args[0] == ia.X {
+							if bi, ok := cl.Call.Value.(*ssa.Builtin); ok && bi.Name() == "len" && (cl.Call.Args[0] == ia.X || sameCellLoad(cl.Call.Args[0], ia.X)) {
 								full = true
 							}
 						}
